@@ -20,6 +20,7 @@
 // choice source: all randomness of a generated case goes through here, so that a case is a pure
 // function of a choice sequence, and shrinking = simplifying that sequence.
 // ---------------------------------------------------------------------------------------------
+struct GenOverrun {};      // thrown when a generator keeps asking for choices far beyond a replayed tape (rejection loop on an all-zero tail)
 struct Src {
     std::vector<uint32_t> in, out; size_t pos = 0; bool replay = false; uint64_t rng = 1;
     explicit Src(uint64_t seed) { rng = seed * 0x9E3779B97F4A7C15ull + 0xD1B54A32D192ED03ull; if (!rng) rng = 1; for (int i = 0; i < 4; i++) next(); }
@@ -29,7 +30,7 @@ struct Src {
     uint32_t choose(uint32_t n) {
         if (n <= 1) return 0;
         uint32_t v;
-        if (replay) { v = pos < in.size() ? in[pos] % n : 0; pos++; }
+        if (replay) { v = pos < in.size() ? in[pos] % n : 0; pos++; if (pos > in.size() + 100000) throw GenOverrun(); }
         else v = (uint32_t)((next() >> 20) % n);
         out.push_back(v); return v;
     }
@@ -196,7 +197,8 @@ static inline bool same_failure(const Result& a, const Result& b) { return b.vio
 static inline void shrink(std::vector<uint32_t>& pt, std::string& sched, const Result& orig, long max_runs, long& runs) {
     std::set<uint64_t> tried; bool progress = true;
     auto attempt = [&](const std::vector<uint32_t>& cand, const std::string& sc) -> bool {
-        std::vector<uint32_t> norm; Case c = make_case(cand, sc, &norm);
+        std::vector<uint32_t> norm; Case c;
+        try { c = make_case(cand, sc, &norm); } catch (GenOverrun&) { return false; }      // this candidate tape is not a valid program
         uint64_t h = fnv(c.text()); if (!tried.insert(h).second) return false;
         if (runs >= max_runs) return false; runs++;
         Result r = run_child(c.text());
